@@ -57,21 +57,22 @@ Theorem ack_durable_power :
   r_pages (recover Power (run init (firstn i os))) k = vol (run init (firstn i os)) k.
 Proof. exact ack_durable_power_l. Qed.
 
-(* DDL: a table whose CREATE TABLE has returned is in the catalog loaded from EVERY power-loss image
-   and from every kill image whose catalog file is not mid-rewrite (any workload, no side condition) *)
+(* the catalog is saved through a temporary file and a rename: Database::open never finds a torn
+   catalog in a kill image, and a table whose CREATE TABLE has returned is in the catalog loaded
+   from EVERY kill image and EVERY power-loss image (any workload, no side condition) *)
+Theorem kill_always_opens :
+  forall os i n, r_open (recover Kill (at_pos os i n)) = true.
+Proof. exact kill_always_opens_l. Qed.
+
 Theorem tables_durable :
   forall os i n t, In t (created (firstn i os)) ->
   r_open (recover Power (at_pos os i n)) = true
   /\ In t (r_tabs (recover Power (at_pos os i n)))
-  /\ (cat_ok (at_pos os i n) = true -> In t (r_tabs (recover Kill (at_pos os i n)))).
+  /\ r_open (recover Kill (at_pos os i n)) = true
+  /\ In t (r_tabs (recover Kill (at_pos os i n))).
 Proof. exact tables_durable_l. Qed.
 
 (* where the model does not keep the property (known findings, reproduced on the real code) *)
-Theorem kill_catalog_torn_refuted :
-  exists os i n, wf_run init os = true /\ quiet (at_pos os i n) = true
-    /\ In 1 (tabs (at_pos os i n)) /\ r_open (recover Kill (at_pos os i n)) = false.
-Proof. exact kill_catalog_torn_refuted_l. Qed.
-
 Theorem power_unlogged_refuted :
   exists os i, wf_run init os = true /\ existsb is_api_ckpt os = false /\ in_txn (run init (firstn i os)) = false
     /\ vol (run init (firstn i os)) (1, 1) = Some 2
@@ -130,8 +131,8 @@ Check ack_durable_kill : forall os, wf_run init os = true -> forall i, in_txn (r
 Check power_view : forall os, wf_run init os = true -> forall i n, existsb is_api_ckpt (firstn (S i) os) = false -> forall k, kmem k (g_unl (ghost_at os i n)) = false -> r_pages (recover Power (at_pos os i n)) k = g_view (ghost_at os i n) k.
 Check power_quiet_exact : forall os, wf_run init os = true -> forall i n, existsb is_api_ckpt (firstn (S i) os) = false -> quiet (at_pos os i n) = true -> cur_du (at_pos os i n) = cur_fl (at_pos os i n) -> forall k, kmem k (g_unl (ghost_at os i n)) = false -> r_pages (recover Power (at_pos os i n)) k = vol (at_pos os i n) k.
 Check ack_durable_power : forall os, wf_run init os = true -> forall i, existsb is_api_ckpt (firstn i os) = false -> in_txn (run init (firstn i os)) = false -> forall k, kmem k (g_unl (ghost_run init ghost0 (firstn i os))) = false -> r_pages (recover Power (run init (firstn i os))) k = vol (run init (firstn i os)) k.
-Check tables_durable : forall os i n t, In t (created (firstn i os)) -> r_open (recover Power (at_pos os i n)) = true /\ In t (r_tabs (recover Power (at_pos os i n))) /\ (cat_ok (at_pos os i n) = true -> In t (r_tabs (recover Kill (at_pos os i n)))).
-Check kill_catalog_torn_refuted : exists os i n, wf_run init os = true /\ quiet (at_pos os i n) = true /\ In 1 (tabs (at_pos os i n)) /\ r_open (recover Kill (at_pos os i n)) = false.
+Check kill_always_opens : forall os i n, r_open (recover Kill (at_pos os i n)) = true.
+Check tables_durable : forall os i n t, In t (created (firstn i os)) -> r_open (recover Power (at_pos os i n)) = true /\ In t (r_tabs (recover Power (at_pos os i n))) /\ r_open (recover Kill (at_pos os i n)) = true /\ In t (r_tabs (recover Kill (at_pos os i n))).
 Check power_unlogged_refuted : exists os i, wf_run init os = true /\ existsb is_api_ckpt os = false /\ in_txn (run init (firstn i os)) = false /\ vol (run init (firstn i os)) (1, 1) = Some 2 /\ r_pages (recover Power (run init (firstn i os))) (1, 1) = None.
 Check power_apickpt_refuted : exists os i, wf_run init os = true /\ in_txn (run init (firstn i os)) = false /\ kmem (1, 2) (g_unl (ghost_run init ghost0 (firstn i os))) = false /\ vol (run init (firstn i os)) (1, 2) = Some 6 /\ r_pages (recover Power (run init (firstn i os))) (1, 2) = None.
 Check recover_unique_ids : forall m s, recover_sh [] m s = recover m s.
@@ -143,8 +144,8 @@ Print Assumptions ack_durable_kill.
 Print Assumptions power_view.
 Print Assumptions power_quiet_exact.
 Print Assumptions ack_durable_power.
+Print Assumptions kill_always_opens.
 Print Assumptions tables_durable.
-Print Assumptions kill_catalog_torn_refuted.
 Print Assumptions power_unlogged_refuted.
 Print Assumptions power_apickpt_refuted.
 Print Assumptions recover_unique_ids.
